@@ -35,124 +35,21 @@ def alpha_swap(node: ast.AST, a: str, b: str, extra: Dict[str, str]) -> str:
 
 
 def r32(ctx, res):
+    """swap closure and completeness of the candidate collection, on origin families"""
+    from ..origins import check_families
+
     repo = ctx.repo
     n = 0
-    # --- coplanar polygon/polygon branch
     fi = repo.fn("inter_convexpolygon_convexpolygon", "calc.intersection")
     a, b = fi.params[:2]
-    loops = [x for x in walk_local(fi.node) if isinstance(x, ast.For)]
-    vert = {}
-    edge = []
-    for lp in loops:
-        it = txt(lp.iter)
-        if it in ("%s.points" % a, "%s.points" % b) and isinstance(lp.target, ast.Name):
-            v = lp.target.id
-            owner = it.split(".")[0]
-            other = b if owner == a else a
-            ok = any(isinstance(s, ast.If) and txt(s.test) == "%s in %s" % (v, other) and any(
-                isinstance(c, ast.Call) and isinstance(c.func, ast.Attribute) and c.func.attr == "add" and c.args
-                and txt(c.args[0]) == v for x in s.body for c in ast.walk(x)) for s in lp.body)
-            if ok:
-                vert[owner] = lp
-        if it in ("%s.segments()" % a, "%s.segments()" % b):
-            edge.append(lp)
-    for owner, other in ((a, b), (b, a)):
-        n += 1
-        ok = owner in vert
-        res.ob("R3.2", fi.where(vert.get(owner, fi.node)), "%s: vertices of %s inside %s" % (fi.short, owner, other), ok,
-               "loop `for p in %s.points: if p in %s: add`" % (owner, other) if ok else "family missing")
-        if not ok:
-            res.violation("R3.2", fi, fi.node, "coplanar polygons: the vertices of %s that lie in %s are never collected; a polygon "
-                          "nested in the other (or overlapping with its corner inside) loses vertices of the result" % (owner, other),
-                          construct="%s: vertex family of %s" % (fi.short, owner))
-    if a in vert and b in vert:
-        t1 = txt(vert[a])
-        t2 = alpha_swap(vert[b], a, b, {vert[b].target.id: vert[a].target.id})
-        if t1 != t2:
-            res.note("%s: the two vertex-collection loops are not textual mirror images (both have the required shape "
-                     "`for p in X.points: if p in Y: add p`)" % fi.short)
-    n += 1
-    ok = False
-    why = "no loop over an edge cycle feeding the crossing helper"
-    for lp in edge:
-        owner = txt(lp.iter).split(".")[0]
-        other = b if owner == a else a
-        for c in ast.walk(lp):
-            if isinstance(c, ast.Call) and isinstance(c.func, ast.Name) and c.func.id == "get_segment_convexpolygon_intersection_point_set" \
-                    and len(c.args) == 2 and txt(c.args[0]) == lp.target.id and txt(c.args[1]) == other:
-                ok = True
-                why = ("edges of %s against the edge cycle of %s (the helper iterates %s.segments(), so every edge pair is "
-                       "tested once: symmetric by construction)" % (owner, other, other))
-    res.ob("R3.2", fi.where(), "%s: edge-crossing family" % fi.short, ok, why)
-    if not ok:
-        res.violation("R3.2", fi, fi.node, "coplanar polygons: edge x edge crossings are not collected: %s" % why,
-                      construct="%s: edge crossing family" % fi.short)
-    # every result of the coplanar branch lies behind all three families
-    fams = [vert[x] for x in (a, b) if x in vert] + edge
-    if fams:
-        par_if = None
-        for st in walk_local(fi.node):
-            if isinstance(st, ast.If) and any(f_ in ast.walk(st) for f_ in fams[:1]):
-                par_if = st
-        scope = [fi.node]
-        if par_if is not None:
-            # innermost statement list that contains the families
-            for st in walk_local(fi.node):
-                if isinstance(st, ast.If):
-                    for body in (st.body, st.orelse):
-                        if all(any(f_ is x for x in body) for f_ in fams):
-                            scope = body
-        n += report_bypass(ctx, res, fi, "R3.2", fams, scope, "vertices of a in b, vertices of b in a, edge crossings")
-    # --- polyhedron/polyhedron
+    edge = "hit(%s)" % " | ".join(sorted(["%s.segments()[*]" % a, "%s.segments()[*]" % b]))
+    n += check_families(ctx, res, "R3.2", fi, ["%s.points[*]" % a, "%s.points[*]" % b, edge],
+                        "vertices of a in b, vertices of b in a, edge x edge crossings (coplanar case)")
     fj = repo.fn("inter_convexpolyhedron_convexpolyhedron", "calc.intersection")
     p, q = fj.params[:2]
-    lps = [x for x in fj.node.body if isinstance(x, ast.For) and txt(x.iter) in ("%s.convex_polygons" % p, "%s.convex_polygons" % q)]
-    owners = {txt(x.iter).split(".")[0]: x for x in lps}
-    for owner, other in ((p, q), (q, p)):
-        n += 1
-        lp = owners.get(owner)
-        ok = False
-        if lp is not None:
-            for c in ast.walk(lp):
-                if isinstance(c, ast.Call) and isinstance(c.func, ast.Name) and c.func.id in (
-                        "inter_convexpolygon_convexPolyhedron", "intersection") and len(c.args) == 2 \
-                        and {txt(c.args[0]), txt(c.args[1])} == {other, lp.target.id}:
-                    ok = True
-        res.ob("R3.2", fj.where(lp or fj.node), "%s: faces of %s clipped by %s" % (fj.short, owner, other), ok,
-               "loop present" if ok else "family missing")
-        if not ok:
-            res.violation("R3.2", fj, fj.node, "polyhedron x polyhedron: the faces of %s are never clipped by %s; the part of the "
-                          "result's boundary that lies on %s is lost" % (owner, other, owner),
-                          construct="%s: faces of %s" % (fj.short, owner))
-    if owners:
-        n += report_bypass(ctx, res, fj, "R3.2", list(owners.values()), fj.node.body, "faces of each polyhedron clipped by the other")
-    if p in owners and q in owners:
-        n += 1
-
-        def routing(lp):
-            """type of the clipped face -> set it is added to"""
-            m = {}
-            for st in ast.walk(lp):
-                if isinstance(st, ast.If):
-                    for test, body in if_chain(st)[0]:
-                        for c in ast.walk(test):
-                            if isinstance(c, ast.Call) and isinstance(c.func, ast.Name) and c.func.id == "isinstance" and len(c.args) == 2:
-                                tys = [c.args[1].id] if isinstance(c.args[1], ast.Name) else [e.id for e in getattr(c.args[1], "elts", []) if isinstance(e, ast.Name)]
-                                for b_ in body:
-                                    for cc in ast.walk(b_):
-                                        if isinstance(cc, ast.Call) and isinstance(cc.func, ast.Attribute) and cc.func.attr == "add" \
-                                                and isinstance(cc.func.value, ast.Name):
-                                            for t_ in tys:
-                                                m[t_] = cc.func.value.id
-            return m
-
-        r1, r2 = routing(owners[p]), routing(owners[q])
-        same = r1 == r2 and set(r1) >= {"Point", "Segment", "ConvexPolygon"}
-        res.ob("R3.2", fj.where(owners[p]), "%s: both face loops route the clipped faces to the same sets" % fj.short, same,
-               "routing %s" % r1 if same else "%s vs %s" % (r1, r2))
-        if not same:
-            res.violation("R3.2", fj, owners[q], "the two face-clipping loops of %s route their results differently (%s vs %s): parts found "
-                          "from one side only are dropped or mis-filed" % (fj.short, r1, r2), construct="%s: face loops differ" % fj.short)
+    req = ["hit(%s)" % " | ".join(sorted(["%s.convex_polygons[*]" % p, q])),
+           "hit(%s)" % " | ".join(sorted(["%s.convex_polygons[*]" % q, p]))]
+    n += check_families(ctx, res, "R3.2", fj, req, "faces of each polyhedron clipped by the other")
     ctx.require(res, "R3.2", n, 7, "swap-closure obligations")
 
 
@@ -246,7 +143,7 @@ def r33(ctx, res):
             if not ok:
                 res.violation("R3.3", fi, st, "%s maps the number of collected points to the wrong kind of result: %s" % (
                     fi.short, "; ".join(problems)), construct="%s: ladder on %s" % (fi.short, var))
-    ctx.require(res, "R3.3", n, 8, "selection obligations")
+    ctx.require(res, "R3.3", n, 5, "selection obligations")
 
 
 def run(ctx, res):
